@@ -31,7 +31,7 @@ RULE = (
     "encoding=} x EOL {LF, CRLF, CR}: strict canonical equality with the plain-string read; part 2: all histories up to "
     "the depth bound over {read(T1|T2) from string / path / with other options, mutate a header value / default item / "
     "curve name / data in place / append / delete a curve of an earlier result, write(result, options), LASFile()+"
-    "mutate+write, pickle, deepcopy}; after every history a fresh read(T1), read(T2), LASFile() and the module tables "
+    "mutate+write, pickle, deepcopy}; after every operation the results it was not aimed at must be unchanged; after every history a fresh read(T1), read(T2), LASFile() and the module tables "
     "(ORDER_DEFINITIONS, READ/NULL policies and substitutions, DEPTH_UNITS, get_default_items()) are compared with "
     "digests computed in a separate fresh interpreter; non-trivial = history containing a mutation or a write"
 )
@@ -55,7 +55,9 @@ T_LATIN = (
 T_WRAPPED = T_LATIN.replace("WRAP. NO", "WRAP. YES").replace("1.0 10.5\n2.0 -999.25\n", "1.0\n10.5\n2.0\n-999.25\n")
 # characters of cp1252's 0x80-0x9F block (not in latin-1): a code page must not be replaced by a "close enough" one
 T_CP1252 = T_LATIN.replace("Bohrung Süd ±3", "Bohrung „Süd“ – 3 € ™ Š").replace("free text ½ ñ ÿ", "free text … ‰ œ ž Ÿ ‘x’")
-TEXTS = {"unicode": T_UNICODE, "latin": T_LATIN, "latin-wrapped": T_WRAPPED, "cp1252": T_CP1252}
+# characters str.splitlines() treats as line boundaries but files and StringIO do not (NEL, VT, FF, FS, LS, PS)
+T_EXOTIC = T_LATIN.replace("Bohrung Süd ±3", "Bohrung\x85Süd\x0b3\u2028x").replace("free text ½ ñ ÿ", "free\x0ctext\x1c½\u2029ÿ")
+TEXTS = {"unicode": T_UNICODE, "latin": T_LATIN, "latin-wrapped": T_WRAPPED, "cp1252": T_CP1252, "exotic-linebreaks": T_EXOTIC}
 
 CHANNELS = ["str-path", "pathlib", "text-file", "text-file-newline-empty", "stringio", "string"]
 STORAGES = [("utf-8-sig", None), ("utf-8", None), ("utf-8", "utf-8"), ("utf-16", "utf-16"), ("utf-16-le", "utf-16-le"),
@@ -83,6 +85,8 @@ def channel_points():
                 if tname == "unicode" and codec in ("latin-1", "cp1252"):
                     continue
                 if tname == "cp1252" and codec == "latin-1":
+                    continue
+                if tname == "exotic-linebreaks" and codec in ("latin-1", "cp1252"):
                     continue
                 for eol in EOLS:
                     pts.append(["chan", tname, ch, codec, enc_arg, eol])
@@ -156,7 +160,7 @@ def V1(pt, clause, expected, observed):
 
 # ------------------------------------------------------------------ part 2
 def alphabet():
-    ops = [["read", 0], ["read", 1], ["read_path", 0], ["read_opts", 1]]
+    ops = [["read", 0], ["read", 1], ["read_path", 0], ["read_opts", 1], ["read_write", 0], ["read_write", 1]]
     for which in ("first", "last"):
         ops += [["mut_header", which], ["mut_default", which], ["rename_curve", which], ["edit_data", which],
                 ["append_curve", which], ["delete_curve", which], ["mut_sections", which]]
@@ -173,6 +177,11 @@ def apply_op(results, op, step):
     kind = op[0]
     if kind == "read":
         results.append(lasio.read(PURE_TEXTS[op[1]]))
+        return True
+    if kind == "read_write":
+        x = lasio.read(PURE_TEXTS[op[1]])
+        x.write(io.StringIO(), wrap=True, version=1.2)
+        results.append(x)
         return True
     if kind == "read_path":
         path = os.path.join(scratch_dir(), "pure%d.las" % op[1])
@@ -252,6 +261,13 @@ def apply_op(results, op, step):
     return True
 
 
+CREATING = ("read", "read_path", "read_opts", "read_write", "new_mutate", "new_write", "pickle", "deepcopy")
+
+
+def _rsnap(las):
+    return canon.las_tag(las, "strict")
+
+
 def module_snapshot():
     parts = []
     for name in ("ORDER_DEFINITIONS", "READ_POLICIES", "READ_SUBS", "NULL_POLICIES", "NULL_SUBS", "DEPTH_UNITS", "HYPHEN_SUBS"):
@@ -302,7 +318,12 @@ _REF = {}
 def check_history(history, ref):
     results = []
     applied = []
+    snaps = []  # canonical snapshot of every result as of the last operation that was aimed at it
     for step, op in enumerate(history):
+        n_before = len(results)
+        target = None
+        if op[0] not in CREATING and results:
+            target = 0 if op[1] == "first" else len(results) - 1
         try:
             ok = apply_op(results, op, step)
         except Exception as e:
@@ -310,6 +331,18 @@ def check_history(history, ref):
         if not ok:
             return [], None, "n/a"
         applied.append(op)
+        # results the operation was not aimed at must not have changed (objects returned by earlier reads are independent)
+        for i in range(n_before):
+            if i == target:
+                continue
+            now = _rsnap(results[i])
+            if now != snaps[i]:
+                return [V2(history[:step + 1], "earlier-result-changed", "result #%d untouched by %r" % (i, op),
+                           canon.diff_tags(snaps[i], now), "frame")], None, "violation"
+        if target is not None:
+            snaps[target] = _rsnap(results[target])
+        for i in range(n_before, len(results)):
+            snaps.append(_rsnap(results[i]))
     try:
         got = digest(observe())
     except Exception as e:
